@@ -196,6 +196,18 @@ func RunCLIBatch(prop string, seed uint64, offset, stride, runs int, proc Proces
 	return out
 }
 
+// HistCallWire is what the driver receives in mode "prochist" (C06, command-loop
+// history stage).
+type HistCallWire struct {
+	In     []byte `json:"in"`
+	Sim    int    `json:"sim"`
+	PF     int    `json:"pf"`
+	Parse  bool   `json:"parse"`
+	Rebase bool   `json:"rebase"`
+	Filter string `json:"filter"`
+	Match  string `json:"match"`
+}
+
 // ---- glue on the vcheck side --------------------------------------------------
 
 func clisimBin() string { return os.Getenv("VERIF_CLISIM_BIN") }
